@@ -112,6 +112,9 @@ class Run:
                     k = v.get("key") or C.viol_key(v)
                     inp = inputs.get(v["id"], {})
                     f.write(json.dumps(dict(key=k, v=v, text=inp.get("text"))) + "\n")
+            with open(os.path.join(td, "%s.hit.json" % prop), "w") as f:
+                # the listed elements that still fail (lib/triage.py --prune drops the others)
+                json.dump(sorted({v.get("key") or C.viol_key(v) for vs in hits.values() for v in vs}), f)
             print("TRIAGE property=%s unlisted=%d known=%d" % (prop, len(new), sum(len(x) for x in hits.values())))
             new = []
         replays = []
@@ -217,12 +220,24 @@ def l2_models(ctx, common, tabs, which):
 
 def fmt_family(ctx, rels, parts, seed_tags="", trivia_tags="", passes=False, gap_quick="1/16",
                pair_fixed="1/400", pair_quick="1/10", tabs="2", fix_max_quick=30000, models=("list",), nl_fixed="1/40",
-               nl_quick="1/6", single_fixed="1/1"):
+               nl_quick="1/6", single_fixed="1/1", opt=False):
     """The universes of the relation family.  Everything `thorough` explores is a fixed finite universe (all single
     placements, a seed-independent slice of the pair placements, a seed-independent slice of U-nl); `quick` explores
     a seed-selected part of the same universe."""
     q = ctx.quick
     common = dict(parts=parts, passes="true" if passes else "false")
+    only = os.environ.get("VERIF_TRIAGE_GAP_TAGS") if os.environ.get("VERIF_TRIAGE") else None
+    if only:
+        # maintainer mode (bin/triage after a repair that touches few seeds): only U-gap over the given seed tags
+        gap = dict(universe="gap", widths="all", single="1/1", single_fixed=single_fixed, pair_fixed=pair_fixed, pair="1/1",
+                   tabs=tabs, seed_tags=only, **common)
+        if trivia_tags:
+            gap["trivia_tags"] = trivia_tags
+        if opt:
+            gap["opt"] = "true"
+        ctx.record("gap", **gap)
+        ctx.validate("TraceFmt", rels)
+        return
     if models:
         l2_models(ctx, common, tabs, models)
     ctx.record("fix", universe="fix+chunk", widths=FIX_W_QUICK if q else FIX_W_THORO, tabs=tabs,
@@ -233,6 +248,9 @@ def fmt_family(ctx, rels, parts, seed_tags="", trivia_tags="", passes=False, gap
         gap["seed_tags"] = seed_tags
     if trivia_tags:
         gap["trivia_tags"] = trivia_tags
+    if opt:
+        # the seeds and trivia values tagged `opt` (deep source indentation, the long-argument chain)
+        gap["opt"] = "true"
     ctx.record("gap", **gap)
     nl = dict(universe="nl", widths="0,20,80", nl_fixed=nl_fixed, nl_sample=nl_quick if q else "1/1", tabs="2", **common)
     if seed_tags:
@@ -248,7 +266,7 @@ def c01(ctx):
 
 def c03(ctx):
     fmt_family(ctx, ["R03"], "none", passes=True, gap_quick="1/6", pair_fixed="1/200", tabs="2,4",
-               models=("list", "chain", "markup"))
+               models=("list", "chain", "markup"), opt=True)
 
 
 def c04(ctx):
